@@ -4,6 +4,7 @@ package main
 
 import (
 	"fmt"
+	"math"
 	"math/rand"
 	"sort"
 	"strings"
@@ -580,6 +581,8 @@ func c17GenSi(r *rand.Rand, tier string, emit func(string)) {
 		"si um 1 3 5 | 7 7 7 | 0", "si um 4 5 6 | 0 0 0 | 1 2 3", "si um 1 2 3 | 0 0 0 | 4 5 6", "si um 1 2 3 | 0 0 | 4 5 6",
 		"si bin |", "si bin 1 |", "si bin | 1", "si bin 1 | 1", "si bin 1 2 3 | 2 3 4", "si bin 1 3 5 | 2 4 6", "si bin 1 2 | 3 4", "si bin 3 4 | 1 2",
 		"si bin 1 2 3 4 | 2 3", "si bin 2 3 | 1 2 3 4",
+		"si bin 9223372036854775807 | -1", "si bin -1 | 9223372036854775807", "si bin -9223372036854775808 | 1", "si bin -9223372036854775808 0 9223372036854775807 | -9223372036854775808 9223372036854775807",
+		"si bin -7 -4 -1 2 5 8 11 14 17 | 17", "si bin -7 -4 -1 2 5 8 11 14 17 | -7", "si bin -7 -4 -1 2 5 8 11 14 17 | 14 17", "si bin 0 1 2 3 4 5 6 7 8 9 10 11 12 13 14 15 16 17 | 16 17",
 		"si compl 0 |", "si compl -3 |", "si compl 3 |", "si compl 3 | 0 1 2", "si compl 2 | 0 1 2 3 4", "si compl 5 | -2 -1 1 7", "si compl 4 | 9",
 		"si has 1 |", "si has 1 | 1", "si has 2 | 1", "si has 0 | 1", "si has 3 | 1 3 5", "si has 4 | 1 3 5",
 		"si hist | ; add 1 ; rm 1 ; un 1 ; add 1 1", "si hist 1 2 3 | 9 9 ; add 5 4 ; rm 2 ; un 2 7 ; un 8 ; rm 8 ; un 0",
@@ -667,6 +670,41 @@ func c17GenSi(r *rand.Rand, tier string, emit func(string)) {
 				b = t
 			}
 			emit("si bin" + c17J(a) + " |" + c17J(b))
+			if c%4 == 0 { // very different sizes: a small b inside a long a, ends of a included
+				a = c17RandSet(r, 60, -30, 140)
+				b = nil
+				for len(a) > 0 && len(b) < 1+r.Intn(3) {
+					switch r.Intn(4) {
+					case 0:
+						b = append(b, a[len(a)-1])
+					case 1:
+						b = append(b, a[0])
+					case 2:
+						b = append(b, a[r.Intn(len(a))])
+					default:
+						b = append(b, -31+r.Intn(143))
+					}
+				}
+				b = c17SortedSet(b)
+				if r.Intn(2) == 0 {
+					emit("si bin" + c17J(a) + " |" + c17J(b))
+				} else {
+					emit("si bin" + c17J(b) + " |" + c17J(a))
+				}
+			}
+			if c%4 == 1 { // members at the ends of the int range: differences of members do not fit an int
+				ext := []int{math.MinInt64, math.MinInt64 + 1, math.MinInt64 / 2, -2, -1, 0, 1, 2, math.MaxInt64 / 2, math.MaxInt64 - 1, math.MaxInt64}
+				pick := func() []int {
+					var x []int
+					for _, v := range ext {
+						if r.Intn(3) == 0 {
+							x = append(x, v)
+						}
+					}
+					return x
+				}
+				emit("si bin" + c17J(pick()) + " |" + c17J(pick()))
+			}
 		}
 		emit(fmt.Sprintf("si compl %d |%s", r.Intn(span+3)-2, c17J(set())))
 		{
@@ -815,4 +853,14 @@ func c17GenSrt(r *rand.Rand, tier string, emit func(string)) {
 func init() {
 	register(&Proto{Name: "si", Props: []string{"C17"}, Run: c17RunSi, Gen: c17GenSi})
 	register(&Proto{Name: "srt", Props: []string{"C17"}, Run: c17RunSrt, Gen: c17GenSrt})
+}
+
+// c17SortedSet returns the distinct members of x in increasing order.
+func c17SortedSet(x []int) []int {
+	var out []int
+	for v := range c17Set(x) {
+		out = append(out, v)
+	}
+	sort.Ints(out)
+	return out
 }
